@@ -142,6 +142,15 @@ def run(ctx):
             ok = P.call(ST + 'GenericState::stable_height', P.anything)(ek.operand(c.args[1])) and P.call('core::ops::range::RangeInclusive::new', P.has(P.either(P.upvar(), P.var(), P.field('0', P.anything))), P.has(P.either(P.upvar(), P.var(), P.field('1', P.anything))))(ek.operand(c.args[2]))
         ctx.check(ok, 'R4', 'unstable-inputs', ua[0][1] if ua else f, 'the unstable part is asked for (stable_height, start..=end)', 'unstable accessor inputs not recognised')
     r6(ctx)
+    # the stable part is complete: the header of every stabilising block is stored, for the block peek
+    # returned and at next_height(), before its ingestion starts, whether or not it is sliced (= C03.R2, C08.R6)
+    from sa.engine import SubCtx
+    from rules import c03, c08, c02
+    c03.r2(SubCtx(ctx, {'R2': 'R6'}))
+    c08.r6(SubCtx(ctx, {'R6': 'R6'}))
+    # the chain height the range is checked against is the best chain's (= C02.R1/R6)
+    c02.r5_r6(SubCtx(ctx, {'R6': 'R3'}))
+    c02.r1(SubCtx(ctx, {'R1': 'R3'}))
     # ---------------- R5 ------------------------------------------------------------------------
     fbs = prog.find('<ic_btc_canister::types::BlockHeaderBlob as core::convert::From>::from')
     okb = False
